@@ -58,6 +58,7 @@ func c18Members() []bMember {
 		{JSON: `{"jsonrpc":"1.0","method":"echo","params":["y"]}`, ID: "null", Kind: "invalid", WantErr: true},
 		{JSON: `{"jsonrpc":"2.0","id":9,"method":"nope"}`, ID: "9", Kind: "unknown", WantErr: true},
 		{JSON: `{"jsonrpc":"2.0","id":8}`, ID: "8", Kind: "invalid", WantErr: true},
+		{JSON: `{"jsonrpc":"2.0","method":"nope","params":["u"]}`, Kind: "unote"}, // notification for an unknown method: no response, no handler
 	}
 }
 
